@@ -25,7 +25,8 @@ use std::sync::OnceLock;
 pub struct Case {
     pub be: Be,
     /// 0 cswap of words, 1 blind selection, 2 blind retrieval + inverse, 3 circuit bootstrapping to constant, 4 to exponent,
-    /// 5 GLWE blind rotation (both forms), 6 GGSW blind rotations (scalar -> GGSW, GGSW -> GGSW, in place)
+    /// 5 GLWE blind rotation (both forms), 6 GGSW blind rotations (scalar -> GGSW, GGSW -> GGSW, in place),
+    /// 7 stateful blind retriever (two retrievals with the same object)
     pub kind: u8,
     pub a: u32,
     pub b: u32,
@@ -38,7 +39,7 @@ pub struct Case {
     pub seed: u64,
 }
 
-pub const KINDS: [&str; 7] = ["cswap_words", "glwe_blind_selection", "glwe_blind_retrieval", "circuit_bootstrapping_to_constant", "circuit_bootstrapping_to_exponent", "glwe_blind_rotation", "ggsw_blind_rotation"];
+pub const KINDS: [&str; 8] = ["cswap_words", "glwe_blind_selection", "glwe_blind_retrieval", "circuit_bootstrapping_to_constant", "circuit_bootstrapping_to_exponent", "glwe_blind_rotation", "ggsw_blind_rotation", "glwe_blind_retriever"];
 
 /// the clear GLWE secret of TestContext (same fixed seed and distribution as TestContext::new)
 fn clear_sk() -> &'static Vec<Vec<i64>> {
@@ -161,6 +162,30 @@ where
                 }
                 cl.push(if len > 1 << bits { "length_not_power_of_two" } else { "length_power_of_two" });
             }
+        }
+        7 => {
+            use poulpy_bin_fhe::bdd_arithmetic::GLWEBlindRetriever;
+            let len = 1 + (w.aux as usize % 20);
+            let bits = (u32::BITS - (len as u32 - 1).leading_zeros()) as usize;
+            let offset = (w.bit_start as usize) % (33 - bits.max(1));
+            let data: Vec<u32> = (0..len).map(|i| w.a.wrapping_mul(i as u32 + 3) ^ w.b.rotate_left(i as u32)).collect();
+            let enc: Vec<FheUint<Vec<u8>, u32>> = data.iter().map(|v| enc_word(*v, &mut xe, &mut xa, &mut scratch)).collect();
+            let mut retriever = GLWEBlindRetriever::alloc(&glwe_infos, len);
+            // two retrievals with the same object (the second one checks the reset)
+            for round in 0..2u32 {
+                let idx = ((w.k >> (8 * round)) as usize) % len;
+                let mask = ((1u64 << bits) - 1) as u32;
+                let kword = (w.k.rotate_left(7 * round) & !(mask.checked_shl(offset as u32).unwrap_or(0))) | ((idx as u32) << offset);
+                let mut kp: FheUintPrepared<DeviceBuf<B>, u32, B> = FheUintPrepared::alloc_from_infos(m, &ggsw_infos);
+                kp.encrypt_sk(m, kword, &c.sk_glwe, &ggsw_enc, &mut xe, &mut xa, scratch.borrow());
+                let mut res: FheUint<Vec<u8>, u32> = FheUint::alloc_from_infos(&glwe_infos);
+                retriever.retrieve(m, &mut res, &enc, &kp, offset, scratch.borrow());
+                let got: u32 = res.decrypt(m, &c.sk_glwe, scratch.borrow());
+                if got != data[idx] {
+                    return fail("wrong-result", format!("retrieval #{round} from {len} words with index {idx} (selector bits from {offset}): decrypts to {got:#010x}, expected {:#010x}", data[idx]));
+                }
+            }
+            cl.push(if len.is_power_of_two() { "length_power_of_two" } else { "length_not_power_of_two" });
         }
         5 | 6 => {
             // rotation by sign * (((k >> rsh) % 2^mask) << lsh), selector bits as prepared GGSWs of a more precise layout (as the shipped tests do)
@@ -327,14 +352,14 @@ pub fn test(w: &Case) -> Verdict {
 }
 
 fn strategy() -> BoxedStrategy<Case> {
-    (prop_oneof![Just(Be::FftRef), Just(Be::FftAvx), Just(Be::NttRef)], 0u8..7, any::<u32>(), any::<u32>(), any::<u32>(), any::<u8>(), any::<u8>(), any::<u32>(), any::<u64>())
+    (prop_oneof![Just(Be::FftRef), Just(Be::FftAvx), Just(Be::NttRef)], 0u8..8, any::<u32>(), any::<u32>(), any::<u32>(), any::<u8>(), any::<u8>(), any::<u32>(), any::<u64>())
         .prop_map(|(be, kind, a, b, k, bit_start, bit_size, aux, seed)| Case { be, kind, a, b, k, bit_start, bit_size, aux, seed })
         .boxed()
 }
 
 pub fn run_all(ctx: &Ctx) {
     let t = ctx.tier;
-    ctx.run_sub("swap_selection_retrieval_bootstrapping_cells", t.pick(448, 6_400), 16, strategy, test);
+    ctx.run_sub("swap_selection_retrieval_bootstrapping_cells", t.pick(512, 7_200), 16, strategy, test);
 }
 
 pub fn replay(ctx: &Ctx, sub: &str, case: &serde_json::Value) -> i32 {
